@@ -663,6 +663,7 @@ impl Property for C15 {
                         max_depth: 0,
                         fiber_switches: 0,
                         distinct_ranges: sh.ranges.borrow().len(),
+                        range_identity_observed: true,
                         steps: sh.steps.get(),
                     };
                     if let RefEnd::Discard(w) = &rend {
